@@ -242,7 +242,8 @@ def _parse_cfg(cfg_buffer: typ.IO[str]) -> RawConfig:
     for option, default_val in BOOL_OPTIONS.items():
         val: OptionVal = raw_cfg.get(option, default_val)
         if isinstance(val, (bytes, str)):
-            val = val.lower() in ("yes", "true", "1", "on")
+            # NOTE: quotes are optional for all values in .cfg files
+            val = val.strip("'\" ").lower() in ("yes", "true", "1", "on")
         raw_cfg[option] = val
 
     raw_cfg['file_patterns'] = dict(_parse_cfg_file_patterns(cfg_parser))
